@@ -124,8 +124,8 @@ func genC20(e *emitter, tier string, seed uint64) {
 	}
 	// random longer cases, UTF-8 names, other delimiters
 	r := newRng(seed, "C20")
-	atoms := []string{"a", "b", "c", "INBOX", "é", "日本", "/", ".", "*", "%", "**", "%%", "*%", " ", "\\", "x/y", "\xff"}
-	delims := []rune{'/', '.', 0, '/', '.', 'é', 0x2F, 'a'}
+	atoms := []string{"a", "b", "c", "INBOX", "é", "日本", "/", ".", "*", "%", "**", "%%", "*%", " ", "\\", "x/y", "\xff", "·", "→", "÷", "ⅆ"}
+	delims := []rune{'/', '.', 0, '/', '.', 'é', 0x2F, 'a', 0xB7, 0x2192, 0x1F600, 0xE9}
 	build := func(n int, wild bool) string {
 		var sb strings.Builder
 		for i := 0; i < n; i++ {
@@ -168,8 +168,52 @@ func genC20(e *emitter, tier string, seed uint64) {
 		if ref != "" && r.chance(1, 2) && strings.HasPrefix(pat, ref) {
 			pat = pat[len(ref):]
 		}
+		if delim >= 0x80 && r.chance(3, 4) {
+			// a multi-byte delimiter: let it occur where the ASCII one did
+			ds := string(delim)
+			name, pat, ref = strings.ReplaceAll(name, "/", ds), strings.ReplaceAll(pat, "/", ds), strings.ReplaceAll(ref, "/", ds)
+			e.count("one:multibyte-delim")
+		}
 		c20One(e, delim, ref, pat, name)
 	}
+	// small scope over CHARACTERS for multi-byte delimiters: the second name letter shares a byte
+	// with the delimiter's encoding (÷ = C3 B7 / · = C2 B7, ↓ = E2 86 93 / → = E2 86 92)
+	for _, sc := range []struct {
+		delim rune
+		other string
+	}{{0xB7, "÷"}, {0x2192, "↓"}} {
+		ds := string(sc.delim)
+		ns := c20Words([]string{"a", ds, sc.other}, 4)
+		ps := c20Words([]string{"a", ds, "*", "%"}, 3)
+		for _, ref := range []string{"", "a", "a" + ds} {
+			for _, pat := range ps {
+				if ref != "" && len(pat) > 2*len(ds) {
+					continue
+				}
+				for _, n := range ns {
+					c20One(e, sc.delim, ref, pat, n)
+					e.count("one:multibyte-small-scope")
+				}
+			}
+		}
+	}
+}
+
+// every word of at most maxLen letters over the given letters (each letter a string)
+func c20Words(letters []string, maxLen int) []string {
+	out := []string{""}
+	level := []string{""}
+	for i := 0; i < maxLen; i++ {
+		var next []string
+		for _, w := range level {
+			for _, l := range letters {
+				next = append(next, w+l)
+			}
+		}
+		out = append(out, next...)
+		level = next
+	}
+	return out
 }
 
 // --- LIST through the real server and the in-memory backend ---
@@ -204,6 +248,10 @@ func c20NewSrv() *c20Srv {
 	rc := newRawClient(ln.dial())
 	rc.readLine()
 	rc.cmd("l", "LOGIN u p")
+	// some mailboxes are subscribed, most are not: LIST (without the SUBSCRIBED selection option)
+	// lists both kinds
+	rc.cmd("s1", "SUBSCRIBE a")
+	rc.cmd("s2", "SUBSCRIBE a/b")
 	return &c20Srv{srv: srv, ln: ln, rc: rc}
 }
 
@@ -212,7 +260,17 @@ func c20Quote(s string) string { return `"` + s + `"` }
 // list issues LIST ref pattern and returns a bitmap over c20Mailboxes of the names reported.
 func (s *c20Srv) list(ref, pat string) string {
 	s.n++
-	st, lines := s.rc.cmd("t"+strconv.Itoa(s.n), "LIST "+c20Quote(ref)+" "+c20Quote(pat))
+	// return options ask for more data about the mailboxes listed; they never select: which one is
+	// used depends on the arguments only, so that a replay asks the same question
+	h := len(ref)*7 + len(pat)
+	for i := 0; i < len(pat); i++ {
+		h += int(pat[i])
+	}
+	ret := []string{"", " RETURN (SUBSCRIBED)", " RETURN (CHILDREN)", " RETURN (STATUS (MESSAGES))", " RETURN (SUBSCRIBED CHILDREN)"}[h%5]
+	if pat == "" {
+		ret = ""
+	}
+	st, lines := s.rc.cmd("t"+strconv.Itoa(s.n), "LIST "+c20Quote(ref)+" "+c20Quote(pat)+ret)
 	if st != "OK" {
 		return "err:" + st
 	}
